@@ -98,4 +98,7 @@ theorem lossless_holds {N cfg} {s : State} (hl : Lossless N cfg s) (hst : s.stop
 theorem losslessKind_not_loop {N : Nat} {k : Kind} (h : losslessKind N k = true) : isLoop k = false := by
   cases k <;> simp_all [losslessKind, isLoop]
 
+theorem losslessKind_not_udf {N : Nat} {k : Kind} (h : losslessKind N k = true) : isUdf k = false := by
+  cases k <;> simp_all [losslessKind, isUdf]
+
 end Kap.C07
